@@ -81,13 +81,20 @@ def Store.get (s : Store κ) (d : Digest) : Option (Obj κ) := alookup s d
 def Store.put (s : Store κ) (d : Digest) (o : Obj κ) : Store κ := (d, o) :: s
 def Store.has (s : Store κ) (d : Digest) : Bool := (s.get d).isSome
 
+/-- a manifest entry must name a direct child: not empty, not "." or "..", no path separator
+(`readDirManifest` rejects anything else; in the typed model key and path coincide) -/
+def entryNameOK (nm : Bytes) : Bool :=
+  !nm.isEmpty && nm != [0x2E] && nm != [0x2E, 0x2E] && !nm.contains 0x2F
+
 /-- `readDirManifest` + `Artifact.UnmarshalJSON` -/
 def readManifest (ctx : Ctx κ) (s : Store κ) (d : Digest) : Except Err (List Child) :=
+  let checked : List Child → Except Err (List Child) := fun cs =>
+    if cs.all (fun c => entryNameOK c.name) then .ok cs else .error .badManifest
   match s.get d with
   | none => .error .missingFromCache
-  | some (.man sch _ cs) => .ok (cs.map (ctx.reload sch))
+  | some (.man sch _ cs) => checked (cs.map (ctx.reload sch))
   | some (.blob c) => match ctx.decBlob c with
-    | some cs => .ok cs
+    | some cs => checked cs
     | none => .error .badManifest
 
 /-- `PathForChecksum` accepts checksums of at least three characters. -/
